@@ -646,6 +646,8 @@ class Lib:
         return self.e.truth(ctx, x)
 
     def bi_str(self, ctx, x=""):
+        if isinstance(x, OptV) and not isinstance(x.is_none, bool) and not self.e.feasible(ctx, x.is_none):
+            x = x.val  # the path condition excludes None
         if isinstance(x, str):
             return x
         if isinstance(x, z3.ExprRef) and z3.is_string(x):
